@@ -37,6 +37,22 @@ from .objects import FuncV
 from .values import DictV, ListV, SBool, SeqV, SInt, int_term, mk_int, zint
 
 
+def comp_nodes(fnode):
+    """comprehensions / generator expressions of a function in source order"""
+    out = []
+
+    def visit(n):
+        for c in ast.iter_child_nodes(n):
+            if isinstance(c, (ast.FunctionDef, ast.AsyncFunctionDef, ast.Lambda, ast.ClassDef)):
+                continue
+            if isinstance(c, (ast.ListComp, ast.SetComp, ast.DictComp, ast.GeneratorExp)):
+                out.append(c)
+            visit(c)
+
+    visit(fnode)
+    return out
+
+
 def loop_nodes(fnode):
     """for/while statements of a function in source order (not descending into nested defs)"""
     out = []
@@ -55,11 +71,12 @@ def loop_nodes(fnode):
 
 def register_loops(I, loops: DictV):
     for key, spec in loops.pairs:
-        qual, ordinal = key
+        is_comp = len(key) == 3 and key[1] == "comp"
+        qual, ordinal = key[0], key[-1]
         f = I.world.funcs_by_qualname.get(qual)
         if f is None:
             raise VCError(f"loop contract for unknown function {qual}")
-        nodes = loop_nodes(f.node)
+        nodes = comp_nodes(f.node) if is_comp else loop_nodes(f.node)
         if ordinal >= len(nodes):
             # the loop the contract speaks about is gone: the function can no longer be
             # verified deductively (bounded stand-in takes over), see Interp.call_function
@@ -68,7 +85,7 @@ def register_loops(I, loops: DictV):
         if not isinstance(spec, DictV):
             raise VCError("loop contract must be a dict")
         d = {k: v for k, v in spec.pairs}
-        d["name"] = f"{qual.split('.', 2)[-1]}.loop{ordinal}"
+        d["name"] = f"{qual.split('.', 2)[-1]}.{'comp' if is_comp else 'loop'}{ordinal}"
         I.world.loopspecs[id(nodes[ordinal])] = d
 
 
@@ -203,3 +220,69 @@ def cut_loop(I, node, env, spec):
     from .interp import CutSig
 
     raise CutSig(name)
+
+
+def cut_comprehension(I, node, env, spec):
+    """[elt for x in <sequence of symbolic length>] under a contract: one arbitrary element
+    is computed (hooks see it as "$elt"), or -- all elements done -- the result is a list of
+    the right length with arbitrary (opaque) elements.  Hooks as for loops."""
+    from .interp import CutSig
+    from .objects import Env
+    from .values import LazyDictV, Opaque, ObjSort, SymListV, deref
+
+    ctx = I.ctx
+    vc = I.ghost.vc
+    name = spec["name"]
+    where = I.where(node)
+    g = node.generators[0]
+    if len(node.generators) != 1 or g.ifs:
+        raise OutsideSubset(f"comprehension contract {name}: only a single generator without conditions is supported")
+    seq = deref(I.eval(g.iter, env))
+    if isinstance(seq, LazyDictV):
+        seq = I.lib.ItemsView(seq, "keys")
+    if isinstance(seq, I.lib.ItemsView) and isinstance(seq.d, LazyDictV):
+        from . import lazydict
+
+        view = lazydict.items_seq(I, seq.d, seq.kind, node)
+        seq = ListV(view) if isinstance(view, list) else view
+    init, inv, head, post, havoc = spec.get("init"), spec.get("inv"), spec.get("head"), spec.get("post"), spec.get("havoc")
+    if init is not None:
+        I.call(init, [vc, _vars_dict(I, env, {"$iter": seq, "$k": 0})], {}, None)
+    if inv is not None:
+        ctx.check(_call_bool(I, inv, [vc, _vars_dict(I, env, {"$iter": seq, "$k": 0})]), f"{name}.inv_init", where)
+    if isinstance(havoc, DictV):
+        for vname, gen in havoc.pairs:
+            env.assign(vname, I.call(gen, [vc, ctx.fresh_name(f"{name}.{vname}")], {}, None))
+    n = I.lib.length(I, seq, node)
+    k = ctx.fresh_int(f"{name}.k")
+    ctx.assume(k >= 0)
+    extra = {"$k": SInt(k), "$iter": seq}
+    entering = ctx.decide(k < zint(int_term(n)))
+    if inv is not None:
+        ctx.assume(_call_bool(I, inv, [vc, _vars_dict(I, env, extra)]))
+        if not ctx.feasible():
+            raise PathAbort()
+    if entering:
+        cenv = Env(parent=env)
+        cenv.func = env.func if not env.is_class else None
+        I.assign_target(g.target, I.lib.getitem(I, seq, extra["$k"], node), cenv)
+        both = {}
+        both.update(extra)
+        for kk, vv in cenv.vars.items():
+            both[kk] = vv
+        if head is not None:
+            I.call(head, [vc, _vars_dict(I, env, both), True], {}, None)
+        elt = I.eval(node.elt, cenv)
+        both["$elt"] = elt
+        both["$k"] = mk_int(k + 1)
+        if post is not None:
+            I.call(post, [vc, _vars_dict(I, env, both)], {}, None)
+        if inv is not None:
+            ctx.check(_call_bool(I, inv, [vc, _vars_dict(I, env, both)]), f"{name}.inv_step", where)
+        ctx.cover(f"{name}.iteration")
+        raise CutSig(name)
+    ctx.assume(k == zint(int_term(n)))
+    if head is not None:
+        I.call(head, [vc, _vars_dict(I, env, extra), False], {}, None)
+    f = z3.Function(ctx.fresh_name(f"{name}.result"), z3.IntSort(), ObjSort)
+    return SymListV(SeqV(int_term(n) if isinstance(int_term(n), int) else zint(int_term(n)), lambda i, f=f: Opaque(f(zint(i)), "elem"), "list", ident=ctx.fresh_name(name)))
